@@ -95,6 +95,45 @@ CLAIMED.update({
     ),
 })
 
+CLAIMED.update({
+    "C04": dict(
+        category="proof", design_ref="DESIGN.md §5 C04",
+        text="MemOrchestrator's two recovery scans are proved to yield exactly the stale sets (PENDING for at least the limit; RUNNING under an owner without a "
+             "heartbeat inside the timeout, or none), heartbeats are proved to be recorded for exactly the reported ids, and the two recovery core tasks are proved "
+             "to re-queue every stale invocation and leave every other one untouched even when some recovery transitions are refused (lost races). SQLite scans bounded.",
+        technique="contract-based deductive verification (AST->z3 VCs over real arithmetic and quantified set/map invariants) + bounded boundary cases on both backends",
+    ),
+    "C14": dict(
+        category="proof", design_ref="DESIGN.md §5 C14",
+        text="Loop iteration of PersistentProcessRunner and MultiThreadRunner proved: dead workers are forgotten, the pool is refilled to its configured size, live workers "
+             "are kept; get_active_child_runner_ids returns exactly the tracked ids whose process is alive (so heartbeats are reported for live workers only). "
+             "OS processes are abstract objects with an uninterpreted liveness predicate.",
+        technique="contract-based deductive verification (AST->z3 VCs with abstract process objects) + bounded stand-in processes on the real loop code",
+    ),
+    "C17": dict(
+        category="proof", design_ref="DESIGN.md §5 C17",
+        text="sanitize_table_prefix is proved (z3/cvc5 strings) to return, for every id string, an SQL identifier of the form sanitised-id + '_' + 8 hex digits of "
+             "sha256(id); equal prefixes need equal hash and sanitised parts; every SQL statement of the five sqlite modules is built from literals, '?' lists and "
+             "own table names only (frame scan). The purge footprint is enumerated on a shared file with adversarial ids, not proved.",
+        technique="contract-based deductive verification over SMT strings + SQL-text frame scan + bounded adversarial shared-file runs",
+    ),
+    "C19": dict(
+        category="proof", design_ref="DESIGN.md §5 C19",
+        text="ConcurrentInvocation.result is proved equal to the retry recurrence written from the property (recursive contract with a decreasing measure): number of "
+             "body executions, retry counter, outcome class and payload. DistributedInvocation.run is proved to be one unfolding of the same recurrence per attempt "
+             "(RETRY + counter + re-queue / result then SUCCESS / exception then FAILED), the body starting only after the activation's own RUNNING request. "
+             "Closed forms (max_retries+1, k, 1 executions) are lemmas. Nested calls/groups/direct tasks only in the bounded comparison.",
+        technique="contract-based deductive verification against a recursive spec function (body as oracle) + bounded sync/distributed comparison through the real thread runner",
+    ),
+    "C20": dict(
+        category="other", design_ref="DESIGN.md §5 C20",
+        text="Every GET route of the monitor (enumerated from the AST) is shown to reach only `reads` methods of the backends, effect classes being computed from the "
+             "real Mem and SQLite implementations; queue_view, the one handler calling mutators, is checked against 'queue unchanged on every exit': proved when the "
+             "page covers the queue, two genuine defects (rotation, drop on a missing record) are listed as known findings with replays on the real monitor.",
+        technique="effect/frame analysis over the real ASTs + contract-based verification of queue_view over the C08 sequence contracts",
+    ),
+})
+
 NOT_YET = {}
 
 
